@@ -54,15 +54,21 @@ func builtinJSONReviveWalk(ctx builtinJSONParseContext, holder *object, name str
 				}
 			}
 		} else {
+			// The list of keys is fixed before any member is walked (ES5 15.12.2 Walk, step 2.b.i):
+			// the reviver, or a deletion below, may change the object while it is being traversed.
+			var keys []string
 			obj.enumerate(false, func(name string) bool {
+				keys = append(keys, name)
+				return true
+			})
+			for _, name := range keys {
 				enumVal := builtinJSONReviveWalk(ctx, obj, name)
 				if enumVal.IsUndefined() {
 					obj.delete(name, false)
 				} else {
 					obj.defineProperty(name, enumVal, 0o111, false)
 				}
-				return true
-			})
+			}
 		}
 	}
 	return ctx.reviver.call(ctx.call.runtime, objectValue(holder), name, value)
